@@ -104,10 +104,10 @@ func thinWrapperSink(p *Program, g *ssa.Function) *engine.Sink {
 	}
 	// no back edges at all
 	idx := map[*ssa.BasicBlock]int{}
-	for i, b := range g.Blocks {
+	for i, b := range engine.BlocksInl(g) {
 		idx[b] = i
 	}
-	for _, b := range g.Blocks {
+	for _, b := range engine.BlocksInl(g) {
 		for _, s := range b.Succs {
 			if idx[s] <= idx[b] && s.Dominates(b) {
 				return nil
@@ -218,7 +218,7 @@ func wrappedSinkOf(p *Program, g *ssa.Function) *engine.Sink {
 		return nil
 	}
 	sinkErr := engine.ErrValue(s.Instr)
-	for _, b := range g.Blocks {
+	for _, b := range engine.BlocksInl(g) {
 		for _, in := range b.Instrs {
 			rt, ok := in.(*ssa.Return)
 			if !ok {
@@ -351,7 +351,7 @@ func regionOf(p *Program, root *ssa.Function) *region {
 	rg := &region{p: p, root: root, fns: []*ssa.Function{root}, site: map[*ssa.Function]engine.CallSite{}}
 	for i := 0; i < len(rg.fns) && len(rg.fns) < 8; i++ {
 		f := rg.fns[i]
-		for _, b := range f.Blocks {
+		for _, b := range engine.BlocksInl(f) {
 			for _, in := range b.Instrs {
 				ci, ok := in.(ssa.CallInstruction)
 				if !ok {
@@ -366,6 +366,9 @@ func regionOf(p *Program, root *ssa.Function) *region {
 				}
 				if !p.OnlyStaticallyCalled(g) || len(p.CallersOf(g)) != 1 {
 					continue
+				}
+				if _, inl := engine.InlineSite(g); inl {
+					continue // already folded into its caller by the inline view
 				}
 				rg.site[g] = engine.CallSite{Fn: f, Instr: ci, Key: engine.CallKey(ci.Common())}
 				rg.fns = append(rg.fns, g)
@@ -459,6 +462,9 @@ func (rg *region) bypass(target ssa.Instruction, through func(in ssa.Instruction
 // propagates: the error of call site cs reaches the root's caller: handled by
 // errorDiscipline in its own function and, for helpers, at every hop up.
 func (rg *region) propagates(cs engine.CallSite) (bool, string) {
+	if cs.Fn == nil || cs.Instr == nil {
+		return true, "" // the piece is folded into its caller by the inline view: nothing to hand up
+	}
 	f, ci := cs.Fn, cs.Instr
 	for i := 0; i < 6; i++ {
 		ok, why := errorDiscipline(rg.p, f, ci, nil, nil)
